@@ -397,6 +397,62 @@ def run(ctx):
         ds = [a for a in fxu.find(domain="comb") if a.t == f"slave.{chn}.addr[slave_align:]"]
         ok = len(ds) == 1 and ds[0].v == f"master.{chn}.addr[slave_align:]" and not ds[0].guards
         ctx.ob("B11", AL, "AXILiteUpConverter", f"{chn}: wide-word address bits forwarded", ok, "" if ok else f"{[(a.t, a.v) for a in ds]}", ds[0].line if ds else 0)
+    # ================================================================ B12 AXI-Lite down-converter lanes
+    ctx.rule("B12", "AXI-Lite down-converter: sub-word `counter` of the wide word goes to / comes from narrow address addr + counter * "
+                    "(narrow bytes): write data / strobes taken from lane counter (bounds evaluated numerically), read data shifted in "
+                    "from the top (LSW first)", min_sites=5)
+    from .. import pyconst as _pc12
+    import copy as _copy12
+    for cls_, chn in (("_AXILiteDownConverterWrite", "aw"), ("_AXILiteDownConverterRead", "ar")):
+        fxd = _fx(ctx, AL, cls_, False)
+        ad = fxd.find(domain="comb", target=f"slave.{chn}.addr")
+        bad = None
+        if len(ad) != 1 or ad[0].guards:
+            bad = f"{[(a.v, a.gtext()) for a in ad]}"
+        else:
+            for dwt in (8, 16, 32):
+                for cnt in (0, 1, 3):
+                    try:
+                        got = _pc12.Interp({"dw_to": dwt, "counter": cnt, "base__": 0x100}).ev(
+                            ast.parse(ad[0].v.replace(f"master.{chn}.addr", "base__"), mode="eval").body)
+                    except Exception as ex:     # noqa
+                        got = f"? ({ex})"
+                    if got != 0x100 + cnt * (dwt // 8) and bad is None:
+                        bad = f"narrow width {dwt}, sub-word {cnt}: address offset {got - 0x100 if isinstance(got, int) else got}, expected {cnt * (dwt // 8)}"
+        ctx.ob("B12", AL, cls_, f"slave.{chn}.addr = master.{chn}.addr + counter * (narrow bytes)", bad is None, bad or "", ad[0].line if ad else 0)
+    fxd = _fx(ctx, AL, "_AXILiteDownConverterWrite", False)
+    for fld, unit8 in (("data", False), ("strb", True)):
+        ds = [a for a in fxd.find(domain="comb", target=f"slave.w.{fld}") if a.loops]
+        bad = None
+        if len(ds) != 1 or len(ds[0].guards) != 1 or norm(ds[0].guards[0][0]) != f"counter == {ds[0].loops[-1][0]}":
+            bad = f"{[(a.v, a.gtext()) for a in ds]}"
+        else:
+            v = ds[0].value
+            i_ = ds[0].loops[-1][0]
+            if not (isinstance(v, ast.Subscript) and norm(v.value) == f"master.w.{fld}" and isinstance(v.slice, ast.Slice) and v.slice.lower is not None):
+                bad = f"slave.w.{fld} <= {ds[0].v}"
+            else:
+                for dwt in (8, 16, 32):
+                    for k in (0, 1, 3):
+                        want = k * dwt // 8 if unit8 else k * dwt
+                        try:
+                            lo = _pc12.Interp({"dw_to": dwt, i_: k}).ev(_copy12.deepcopy(v.slice.lower))
+                        except Exception as ex:     # noqa
+                            lo = f"? ({ex})"
+                        up = None
+                        if v.slice.upper is not None:
+                            try:
+                                up = _pc12.Interp({"dw_to": dwt, i_: k}).ev(_copy12.deepcopy(v.slice.upper))
+                            except Exception:       # noqa
+                                up = "?"
+                        if (lo != want or (up is not None and up != want + (dwt // 8 if unit8 else dwt))) and bad is None:
+                            bad = f"narrow width {dwt}, sub-word {k}: taken from bit/byte {lo}, expected {want}"
+        ctx.ob("B12", AL, "_AXILiteDownConverterWrite", f"slave.w.{fld} <- lane `counter` of master.w.{fld}", bad is None, bad or "", ds[0].line if ds else 0)
+    fxd = _fx(ctx, AL, "_AXILiteDownConverterRead", False)
+    rd = fxd.find(domain="comb", target="master.r.data")
+    ok = len(rd) == 1 and not rd[0].guards and rd[0].v == "Cat(r_data[dw_to:], slave.r.data)"
+    ctx.ob("B12", AL, "_AXILiteDownConverterRead", "read word = {new narrow word on top, earlier ones shifted down}", ok, "" if ok else f"{[a.v for a in rd]}",
+           rd[0].line if rd else 0)
     # ================================================================ B10
     from .c10 import burst2beat_widths
     burst2beat_widths(ctx, "B10")
